@@ -770,6 +770,7 @@ impl FdlActiveStation {
         // Here we conservatively only receive the first pending telegram because it is very
         // unlikely that some other station randomly stole our token.  If it did, we will notice in
         // the next poll cycle.
+        let pending_before = phy.poll_pending_received_bytes(now);
         let received = phy.receive_telegram(now, |telegram| {
             self.mark_rx(now);
 
@@ -797,6 +798,16 @@ impl FdlActiveStation {
 
         if let Some(res) = received {
             return Ok(res);
+        }
+
+        if pending_before > 0 && phy.poll_pending_received_bytes(now) == 0 {
+            // Undecodable data was received (and discarded).  This is not the silence of an unused
+            // address: someone is transmitting at the same time as we do (e.g. a second token
+            // holder whose telegrams collide with ours).  Back off like for any other unexpected
+            // telegram, otherwise two such stations would never notice each other.
+            log::warn!("Received undecodable data while waiting for status reply from #{poll_address}");
+            self.pending_bytes = 0;
+            return Ok(GapPollResponse::UnexpectedTelegram);
         }
 
         if self.check_slot_expired(now) {
